@@ -1,0 +1,15 @@
+//go:build !verif
+
+package vtrace
+
+// On reports whether hooks are compiled in.
+const On = false
+
+// Begin starts recording for the calling goroutine (no-op without the verif tag).
+func Begin() {}
+
+// End stops recording and returns the events (always nil without the verif tag).
+func End() []Event { return nil }
+
+// Emit records an event (no-op without the verif tag).
+func Emit(name string, kv ...interface{}) {}
